@@ -123,6 +123,43 @@ def reply (ws : List String) : Option String :=
       pure (match packByte fmt fields with
         | .error e => showErr e
         | .ok b => showE showFlds (unpackByte fmt b boolean))
+  -- format given as TEXT (code points), parsed by the model's `fmt.split()` / `int()`
+  | ["parsefmt", t] => do
+      let t ← chars? t
+      pure (showE (fun (ws : List Int) => if ws.isEmpty then "-" else ",".intercalate (ws.map toString)) (parseFmt t))
+  | ["packify-t", t, fields, size, rev] => do
+      let t ← chars? t; let fields ← ints? fields; let size ← size? size; let rev ← flag? rev
+      pure (showE showBytes (packifyText t fields size rev))
+  | ["rt-pack-t", t, fields, size, boolean, rev] => do
+      let t ← chars? t; let fields ← ints? fields; let size ← size? size
+      let boolean ← flag? boolean; let rev ← flag? rev
+      pure (match packifyText t fields size rev with
+        | .error e => showErr e
+        | .ok b => showE showFlds (unpackifyText t b boolean size rev))
+  -- packifyInto in full: buffer kind (a = bytearray, l = list, b = bytes), any offset; reply = buffer after the call + result
+  | ["packinto-t", kind, b, t, fields, size, offset, rev] => do
+      let kind ← (if kind == "a" then some BufKind.bytearray else if kind == "l" then some BufKind.list
+                  else if kind == "b" then some BufKind.bytes else none)
+      let b ← bytes? b; let t ← chars? t; let fields ← ints? fields; let size ← size? size
+      let offset ← offset.toInt?; let rev ← flag? rev
+      let (b', r) := match parseFmt t with
+        | .error e => (b, Except.error (IntoErr.codec e))
+        | .ok ws => packifyIntoFull kind b ws fields size offset rev
+      pure (showBytes b' ++ " " ++ (match r with
+        | .ok n => toString n
+        | .error (.codec e) => showErr e
+        | .error .attributeError => "ERR AttributeError"
+        | .error .typeErrorAssign => "ERR TypeError"))
+  | ["region", "negoffset-t", t, size, offset] => do
+      let t ← chars? t; let size ← size? size; let offset ← offset.toInt?
+      pure (match parseFmt t with
+        | .error _ => "0"
+        | .ok ws => match checkSize ws size with
+          | .error _ => "0"
+          | .ok sz => if negOffsetInserts offset sz then "1" else "0")
+  | ["region", "negoffset", offset, size] => do
+      let offset ← offset.toInt?; let size ← size.toNat?
+      pure (if negOffsetInserts offset size then "1" else "0")
   | ["region", "onebit", fmt, fields] => do
       let fmt ← ints? fmt; let fields ← ints? fields
       pure (if oneBitNonBool fmt fields then "1" else "0")
